@@ -226,6 +226,15 @@ func init() {
 		return f != nil && f.Kind == "nonconforming" && f.Data["decoder"] == DMsgpackValue && f.Data["shape"] == "object-missing-attributes"
 	})
 
+	// msgpack.Unmarshal hands string bodies and map keys to StringVal / MapVal
+	// unchecked: ill-encoded input comes back as cty strings that are not valid
+	// UTF-8 (the documented precondition of StringVal). Prefix refinements are
+	// checked by the decoder and are not part of this finding.
+	regKnown("c17MsgpackInvalidUTF8", func(_ string, _ json.RawMessage, f *facet.Failure) bool {
+		return f != nil && f.Kind == "result/utf8" && f.Data["decoder"] == DMsgpackValue &&
+			(strings.Contains(f.Msg, ": known string ") || strings.Contains(f.Msg, ": map key "))
+	})
+
 	// cty.SetVal unmarks every member deeply, which rebuilds nested sets through
 	// SetVal again: building a set nested d levels deep costs 2^d. The depth is
 	// attacker-controlled through the type descriptor of a dynamic wrapper.
